@@ -141,7 +141,7 @@ func iterExpected(set model.Set, heads []string, order string, q iterQuery) (wan
 }
 
 func CheckC15(run *evid.Run) {
-	nh := pick(run.Tier, 120, 6000)
+	nh := pick(run.Tier, 800, 12000)
 	perLog := pick(run.Tier, 60, 220)
 	run.Rule = "seeded forked histories (default ordering when total, hash-tiebreak); on the final state of every replica a seeded set of iterator queries: upper bound in {default heads, 1-3 inclusive bounds (causally related or unrelated), one exclusive bound, unknown hash}; lower bound in {none, inclusive, exclusive} at seeded positions inside the selected range; amount in {nil, 0, 1, ..., size+2}; every query runs under recover with a buffered channel drained after the call returned. The emitted sequence must equal the model's (past of the upper bound, newest first, cut at the lower bound, first/last `amount`), the channel must be closed on success, unknown upper bounds must be errors. With several causally related inclusive bounds and an amount (no lower bound) the oracle accepts a prefix that is short by at most (#bounds-1), because the property only promises 'at most'. Non-trivial query = on a log with a fork and with a lower bound or an amount; distinct = (upper kind, lower kind, amount class, heads>1) + position classes"
 	parallel(nh, func(i int) {
@@ -330,7 +330,7 @@ func CheckC15(run *evid.Run) {
 // ---------------------------------------------------------------- C16
 
 func CheckC16(run *evid.Run) {
-	nh := pick(run.Tier, 100, 5000)
+	nh := pick(run.Tier, 400, 8000)
 	run.Rule = "pairs of replicas (forked, overlapping, one empty, identical) taken from seeded histories; for every bound n in 0..total+3 the history is replayed on fresh replicas (replay twin, identical hashes) and Join(other, n) is compared with the twin's unbounded Join: entry set = last min(n,total) of the unbounded value sequence, heads = unreferenced entries among them, values = that tail, n >= total identical to the unbounded result; runs under recover. When the ordering is not total on the merged set only count, subset and heads are compared. Non-trivial = both logs non-empty and different, and 0 < n < total or n > total; distinct = (pair shape digest, n class)"
 	parallel(nh, func(i int) {
 		rng := rand.New(rand.NewSource(run.Seed*4256233 + int64(i)))
